@@ -17,8 +17,17 @@ import numpy as np
 import numba as nb
 
 
-@nb.njit(parallel=True, cache=True)
 def calculate_interferometer_on_fock_space(interferometer, helper_indices):
+    if len(helper_indices[0]) == 0:
+        # NOTE: For cutoffs 1 and 2 only the vacuum and the single-particle subspaces
+        # exist, and the helper index lists are empty, which Numba is unable to type.
+        return [np.array([[1.0]], dtype=interferometer.dtype), interferometer]
+
+    return _calculate_interferometer_on_fock_space(interferometer, helper_indices)
+
+
+@nb.njit(parallel=True, cache=True)
+def _calculate_interferometer_on_fock_space(interferometer, helper_indices):
     cutoff = len(helper_indices[0]) + 2
     subspace_representations = []
 
